@@ -44,6 +44,9 @@ func buildC13(tier string, seed int64) *Family {
 		"self::*[following::a]", "../*[following-sibling::a and a]", "*[not(following::*)]", "descendant::*[following::a or ancestor::a]", "*[(a | following::a)/@a]",
 		"ancestor-or-self::*[preceding-sibling::*]", "following::*[preceding::a]", "text()", "node()"}
 	abs := []string{"/", "/a", "/*", "//a", "//*", "//@a", "/*/*", "//a/..", "//*[following::a]", "//*[a and following::*]", "//a[1]", "//*[last()]", "/descendant::a", "//text()", "//*[preceding::a or @a]", "/*[a]/a"}
+	// predicates calling functions that share pooled scratch state
+	rel = append(rel, "*[concat(@a, '!') = '1!' or normalize-space() = '1']", "*[normalize-space() = '1'][concat(., 'x') = '1x']", "*[string-join(*, '-') = '1' or concat(., .) = '11']")
+	abs = append(abs, "//*[concat(@a, '!') = '1!' or normalize-space() = '1']", "//*[normalize-space(.) = '1' and concat('', .) = '1']")
 	// unabbreviated first steps that the builder may fuse with the step after them
 	for _, ax := range oracle.Axes {
 		rel = append(rel, "descendant-or-self::node()/"+ax+"::a")
